@@ -10,7 +10,7 @@ CONSTANTS
   MaxQ = 1
   MaxId = 0
   KaVals = {}
-  EndKinds = {"eof", "short", "trunc", "wfail"}
+  EndKinds = {"eof", "short", "trunc", "wfail", "stall"}
   Frames <- MCFrames
 SPECIFICATION Spec
 VIEW View
